@@ -11,7 +11,11 @@ CONSTANTS
   LimReplies = 2
   LimCompleted = 3
   LimPerUser = 3
+  SendTy = {}
+  SendSer = {}
+  SendRs = {}
+  SendFl = {}
 VIEW View
-INVARIANTS TypeOK QueueNoDup OnlyActiveQueued ReservedNamesNeverOwned NamesWithinLimit UniqueNamesDistinct UniqueNamesRecorded SenderIsOrigin
-PROPERTIES OwnerChangeSignalled UniqueNeverReused RefusalChangesNothing
+INVARIANTS TypeOK QueueNoDup OnlyActiveQueued ReservedNamesNeverOwned NamesWithinLimit UniqueNamesDistinct UniqueNamesRecorded SenderIsOrigin RulesWithinLimit PendWithinLimit NoRulesForAbsent PendWellFormed AtMostOneCopy OnlyLiveRecipients ErrorXorDelivery CompletedWithinLimit PerUserWithinLimit
+PROPERTIES OwnerChangeSignalled UniqueNeverReused RefusalChangesNothing UnicastToOwnerOnly BroadcastOnlyToMatching SlotOnlyForDeliveredCall NoReplyOnlyOnExpiry
 CHECK_DEADLOCK FALSE
